@@ -95,15 +95,24 @@ def values(case, ctx):
         rho.flat[0] = 0.0
     elif case["points"] == "axes":
         theta = np.round(theta / (np.pi / 2)) * (np.pi / 2)
+    # two masks over the same caller-owned coordinate arrays: a partial one first, then the full one
+    mask_a = (rng.uniform(size=shape) < 0.6).astype(float)
     mask = np.ones(shape)
     ctx.tag(f"n:{min(n, 20)}", "m=0" if am == 0 else "m!=0", "normalized" if case["normalize"] else "raw",
-            "points:" + case["points"], kind)
+            "points:" + case["points"], kind, "partial_mask_first" if mask_a.min() == 0 else None)
     ctx.nontrivial_if(n >= 2)
+    rho0, theta0 = rho.copy(), theta.copy()
     with lentil_call("C11.values", f"zernike(j={j})"):
+        got_a = np.asarray(lentil.zernike(mask_a, j, normalize=case["normalize"], rho=rho, theta=theta), dtype=float)
         got = np.asarray(lentil.zernike(mask, j, normalize=case["normalize"], rho=rho, theta=theta), dtype=float)
         sign = _sine_sign() if kind == "sin" else 1.0
-    ref, mag = zern.mode(n, am, kind, rho, theta, normalize=case["normalize"])
+    if not (np.array_equal(rho, rho0) and np.array_equal(theta, theta0)):
+        raise Violation("C11.values.coords_mutated", "zernike() modified the caller's rho/theta arrays")
+    ref, mag = zern.mode(n, am, kind, rho0, theta0, normalize=case["normalize"])
     ref = sign * ref
+    tol_a = 64 * np.finfo(float).eps * (np.asarray(mag, dtype=float) * (1 + am * np.abs(theta0)) + 1.0)
+    if got_a.shape != shape or np.any(np.abs(got_a - np.asarray(ref, dtype=float) * mask_a) > tol_a):
+        raise Violation("C11.values.masked", f"mode j={j} over a partial mask differs from mask * textbook value")
     tol = 64 * np.finfo(float).eps * (np.asarray(mag, dtype=float) * (1 + am * np.abs(theta)) + 1.0)
     err = np.abs(got - np.asarray(ref, dtype=float))
     if got.shape != shape or np.any(err > tol):
